@@ -63,6 +63,8 @@ func main() {
 		os.Exit(loadfam.GrowEcho())
 	case "grow-exitcodes":
 		os.Exit(clifam.GrowExitCodes())
+	case "coverage":
+		os.Exit(execfam.Coverage())
 	case "selftest":
 		rc := execfam.SelfTest()
 		if r := fpfam.SelfTest(); r > rc {
